@@ -161,7 +161,7 @@ F1_EXCEPT = {"mir::lower::Lowerer::<'r>::constant": 1}
 
 
 def rule_f1(F):
-    r = RuleResult("C03.F1", "frame pushes and pops on stack_slots are balanced on every path of every lowering method", floor=8)
+    r = RuleResult("C03.F1", "frame pushes and pops on stack_slots are balanced on every path of every lowering method", floor=4)
     summ = frame_summaries(F)
     bodies = lowerer_bodies(F)
     info = {}
@@ -208,9 +208,44 @@ def rule_f1(F):
     return r
 
 
-def rule_f2(F):
-    r = RuleResult("C03.F2", "every popped frame is drained into emit_drop", floor=8)
+_DRAIN = {}
+
+
+def drainers(F):
+    """Lowerer methods that pass the elements of a frame-typed parameter to emit_drop: {path: set of argument positions}."""
+    key = id(F)
+    if key in _DRAIN:
+        return _DRAIN[key]
+    out = {}
     for b in lowerer_bodies(F):
+        ls = b.mir["locals"]
+        cand = [i for i in range(2, b.mir["argc"] + 1) if ls[i]["ty"] == FRAME_TY]
+        if not cand:
+            continue
+        defs = mir.Defs(b)
+        drops = [bi for bi, t in mir.calls(b) if hir.last(mir.callee(t)) == "emit_drop"]
+        for bi, t in mir.calls(b):
+            if hir.last(mir.callee_def(t)) != "into_iter" or not t["args"] or not mir.is_place_op(t["args"][0]):
+                continue
+            k = mir.origin_key(b, defs, t["args"][0][1])
+            reach = mir.reachable_from(b, bi)
+            for i in cand:
+                if k == "arg%d" % i and any(d in reach for d in drops):
+                    out.setdefault(b.path, set()).add(i - 1)
+    _DRAIN.clear()
+    _DRAIN[key] = out
+    return out
+
+
+def rule_f2(F):
+    r = RuleResult("C03.F2", "every popped frame is drained into emit_drop", floor=4)
+    dr = drainers(F)
+    summ = frame_summaries(F)
+    for b in lowerer_bodies(F):
+        # a call of a helper that pops a frame (net effect -1) is a pop site of this method too; the helper itself is checked where it is defined
+        for bi, t in mir.calls(b):
+            if summ.get(mir.callee(t)) == {-1} and mir.callee(t) != b.path:
+                r.inst("%s pops through %s #%d" % (b.path, hir.last(mir.callee(t)), bi), {"fn": b.path, "line": t["line"], "helper": mir.callee(t)})
         pops = [(bi, t) for bi, t in mir.calls(b) if is_frame_op(t, "pop")
                 or (mir.callee_def(t) == "std::mem::take" and (t["f"].get("gargs") or [None])[0] == FRAME_TY)]
         if not pops:
@@ -232,6 +267,15 @@ def rule_f2(F):
                 reach = mir.reachable_from(b, ibi)
                 if any(dbi in reach for dbi, _ in drops):
                     drained = True
+            # ... or be handed to a helper that does so
+            for cbi, ct in mir.calls(b):
+                pos = dr.get(mir.callee(ct))
+                if not pos:
+                    continue
+                for k in pos:
+                    a = ct["args"][k] if k < len(ct["args"]) else None
+                    if mir.is_place_op(a) and (any(c[0] == pbi for c in mir.value_chain(b, defs, a[1][0])) or deps_chain_has(b, defs, a[1][0], pbi)):
+                        drained = True
             key = "%s pop#%d" % (b.path, pops.index((pbi, pt)))
             r.inst(key, {"fn": b.path, "line": pt["line"], "drained": drained})
             if not drained:
@@ -398,7 +442,28 @@ F7_REVIEWED = {
 
 
 def rule_f7(F):
-    r = RuleResult("C03.F7", "who may drop: emit_drop is only applied to variables taken out of a frame (drains, return_value) or in the reviewed sites", floor=10)
+    r = RuleResult("C03.F7", "who may drop: emit_drop is only applied to variables taken out of a frame (drains, return_value) or in the reviewed sites", floor=5)
+    dr = drainers(F)
+    # a helper that drains its parameter may only be given frames (results of pop / take on stack_slots)
+    for b in lowerer_bodies(F):
+        defs0 = None
+        for cbi, ct in mir.calls(b):
+            pos = dr.get(mir.callee(ct))
+            if not pos:
+                continue
+            defs0 = defs0 or mir.Defs(b)
+            for k in pos:
+                a = ct["args"][k] if k < len(ct["args"]) else None
+                ok = False
+                if mir.is_place_op(a):
+                    for pb_, pt_ in mir.calls(b):
+                        if (is_frame_op(pt_, "pop") or (mir.callee_def(pt_) == "std::mem::take" and (pt_["f"].get("gargs") or [None])[0] == FRAME_TY)) \
+                                and (any(c[0] == pb_ for c in mir.value_chain(b, defs0, a[1][0])) or deps_chain_has(b, defs0, a[1][0], pb_)):
+                            ok = True
+                r.inst("%s hands a frame to %s #%d" % (hir.last(b.path), hir.last(mir.callee(ct)), cbi), {"fn": b.path, "line": ct["line"], "argument_is_a_popped_frame": ok})
+                if not ok:
+                    r.bad(b.path, "%s given something that is not a frame" % hir.last(mir.callee(ct)), relfile(b.file), ct["line"],
+                          "%s drops every variable it is given; here it receives a list that was not taken out of the frame stack: those variables are dropped by hand while still (or never) registered in a frame" % hir.last(mir.callee(ct)))
     for b in lowerer_bodies(F):
         drops = [(bi, t) for bi, t in mir.calls(b) if hir.last(mir.callee(t)) == "emit_drop" and mir.callee(t).startswith("mir::lower::")]
         if not drops:
@@ -421,6 +486,12 @@ def rule_f7(F):
                             if nm == "next":
                                 it = d[3]["args"][0]
                                 ch = mir.value_chain(b, defs, it[1][0]) if mir.is_place_op(it) else []
+                                # the elements of a frame-typed parameter of a draining helper (its callers are checked above)
+                                for c in ch:
+                                    t2 = b.blocks[c[0]]["term"]
+                                    for a2 in t2["args"][:1]:
+                                        if mir.is_place_op(a2) and mir.origin_key(b, defs, a2[1]) in {"arg%d" % (k + 1) for k in dr.get(b.path, ())}:
+                                            from_frame = True
                                 srcs = []
                                 for c in ch:
                                     t2 = b.blocks[c[0]]["term"]
